@@ -90,8 +90,9 @@ def gen_cron(seed: int, n_day_traces: int, n_random: int) -> List[Dict[str, Any]
             if o["k"] == "zone" and not cd.pytz_agrees(cd.ZONES[o["z"] - 1], day, sod):
                 skipped += 1
                 continue
-            calls.append({"e": "cron", "f": f, "o": o, "day": day, "sod": sod, "us": rng.choice([0, 999999, rng.randint(0, 999999)])})
-        scns.append({"calls": calls, "family": "cron_day"})
+            calls.append({"e": "cron", "f": f, "o": o, "day": day, "sod": sod, "us": rng.choice([0, 999999, rng.randint(0, 999999)]),
+                          "via_spec": len(scns) % 3 == 0})
+        scns.append({"calls": calls, "family": "cron_day", "tz": [None, "JST-9", "EST5EDT", "IST-5:30"][len(scns) % 4]})
     calls = []
     for _ in range(n_random):            # random instants 2015-2035, narrow expressions (so that matches happen)
         f = rand_expr(rng, wide=rng.random() < 0.6)
@@ -101,9 +102,20 @@ def gen_cron(seed: int, n_day_traces: int, n_random: int) -> List[Dict[str, Any]
         if o["k"] == "zone" and not cd.pytz_agrees(cd.ZONES[o["z"] - 1], day, sod):
             skipped += 1
             continue
-        calls.append({"e": "cron", "f": f, "o": o, "day": day, "sod": sod, "us": rng.randint(0, 999999)})
+        calls.append({"e": "cron", "f": f, "o": o, "day": day, "sod": sod, "us": rng.randint(0, 999999), "via_spec": rng.random() < 0.3})
+    # fields that are the integer 0 / single numbers through CronSpec (minute 0, hour 0, Sunday = 0)
+    for _ in range(max(200, n_random // 20)):
+        f = [[{"k": "num", "a": rng.choice([0, 0, 30]), "b": 0, "s": 1}], [{"k": "num", "a": rng.choice([0, 0, 12]), "b": 0, "s": 1}],
+             [{"k": "star", "a": 0, "b": 0, "s": 1}], [{"k": "star", "a": 0, "b": 0, "s": 1}],
+             [rng.choice([{"k": "star", "a": 0, "b": 0, "s": 1}, {"k": "num", "a": 0, "b": 0, "s": 1}])]]
+        o = rand_offset(rng, len(cd.ZONES))
+        day = rng.randint(16436, 24100)
+        sod = rng.choice([0, 1800, 43200, 45000, rng.randint(0, 86399)])
+        if o["k"] == "zone" and not cd.pytz_agrees(cd.ZONES[o["z"] - 1], day, sod):
+            continue
+        calls.append({"e": "cron", "f": f, "o": o, "day": day, "sod": sod, "us": 0, "via_spec": True})
     for i in range(0, len(calls), 1000):
-        scns.append({"calls": calls[i:i + 1000], "family": "cron_random"})
+        scns.append({"calls": calls[i:i + 1000], "family": "cron_random", "tz": [None, "JST-9", "EST5EDT"][(i // 1000) % 3]})
     scns[0]["skipped_tz_disagreement"] = skipped
     return scns
 
@@ -153,7 +165,14 @@ def gen_time(seed: int, n_random: int) -> List[Dict[str, Any]]:
         else:
             dl = _dt.timedelta(seconds=rng.randint(-172800, 172800), microseconds=rng.randint(0, 999999))
         calls.append({"e": "time", "now": now, "T": cd.dt_to_inst(nowdt + dl), "spell": rng.choice(spells)})
-    return [{"calls": calls[i:i + 1500], "family": "time_lattice" if i == 0 else "time"} for i in range(0, len(calls), 1500)]
+    # a one-shot schedule may carry a cron_offset (schedule templates): it must not change anything
+    for i, c in enumerate(calls):
+        if i % 7 == 0:
+            c["off"] = rand_offset(rng, len(cd.ZONES))
+            if c["off"]["k"] == "none":
+                c.pop("off")
+    return [{"calls": calls[i:i + 1500], "family": "time_lattice" if i == 0 else "time", "tz": [None, "JST-9", "EST5EDT", "IST-5:30"][(i // 1500) % 4]}
+            for i in range(0, len(calls), 1500)]
 
 
 def _drive_one(scn: Dict[str, Any]) -> Dict[str, Any]:
